@@ -13,7 +13,9 @@ ASSUMPTIONS = [
     "exceptions from servicing a closed server's stale tables are ignored by this check",
 ]
 
-SERVER_EVENTS = ["fresh", "reuse", "svc", "svc_pending", "cclose", "crst", "reopen", "close"]
+SERVER_EVENTS = ["fresh", "reuse", "svc", "svc_pending", "cclose", "crst", "reopen", "close", "svc_hs_eof", "svc_hs_sslerror", "svc_hs_reset"]
+TLS_ONLY = ("svc_pending", "svc_hs_eof", "svc_hs_sslerror", "svc_hs_reset")
+HS_ANSWER = {"svc_pending": "want_read", "svc_hs_eof": "eof", "svc_hs_sslerror": "sslerror", "svc_hs_reset": -104}
 CLIENT_EVENTS = ["up", "down", "connect", "service", "reopen", "close", "peerclose", "tick"]
 
 
@@ -23,7 +25,8 @@ def depth(tier):
 
 def RULE(tier):
     return ("explicit-state BFS to depth %d over event histories. Server (plain and TLS): {client connects from a fresh address, "
-            "client reconnects from its previous address, server.service(), service with the TLS handshake still pending, client "
+            "client reconnects from its previous address, server.service(), service with the TLS handshake still pending / ending in "
+            "EOF / failing with a protocol error (ssl.SSLError) / reset, client "
             "closes, client resets, server.reopen(), server.close()}; after close()/reopen() every socket the server created or "
             "accepted must have been close()d (listen socket, ixes, pending-handshake cxes, replaced connections). Client (plain and "
             "TLS, reconnectable): {listener up/down, connect(), service(), reopen(), close(), peer closes, tyme advances}; after every "
@@ -44,8 +47,11 @@ def jobs(tier):
 class HsPolicy(fakenet.Policy):
     def __init__(self):
         self.pending = False
+        self.answer = None      # answer of the TLS handshake calls made during the current service(): None = completes
 
     def handshake(self, sock):
+        if self.answer is not None:
+            return self.answer
         return "want_read" if self.pending else "ok"
 
 
@@ -78,10 +84,12 @@ def run_server(tls, hist):
                         c.name = name
                         c.connect_ex(("127.0.0.1", 6101))
                         raws.append(c)
-                elif ev in ("svc", "svc_pending"):
-                    pol.pending = (ev == "svc_pending")
-                    server.service()
-                    pol.pending = False
+                elif ev in ("svc",) + TLS_ONLY:
+                    pol.answer = HS_ANSWER.get(ev)
+                    try:
+                        server.service()
+                    finally:
+                        pol.answer = None
                 elif ev == "cclose":
                     live = [r for r in raws if not r.closed]
                     if live:
@@ -178,7 +186,7 @@ def run_job(job, tier, seed):
     acc = Acc(job)
     side, tls, k, n = job
     if side == "server":
-        evs = [e for e in SERVER_EVENTS if tls or e != "svc_pending"]
+        evs = [e for e in SERVER_EVENTS if tls or e not in TLS_ONLY]
         run = lambda hist: run_server(tls, hist)
     else:
         evs = CLIENT_EVENTS
